@@ -45,6 +45,15 @@ def cases(rng, tier):
     N = 50 if tier == "quick" else 600
     for two in ("cz", "cy", "ch"):
         yield _dest_used_case(rng, two)
+    for k in range(2):
+        # a Move onto a used wire is the last thing on that wire and the observables act on it: its reset stays in front of the measurement
+        instrs = [{"name": "ry", "qubits": [1], "params": [rng.choice([0.9, 2.2])]}, gen.rand_1q(rng, 0), {"name": "h", "qubits": [0]},
+                  {"name": "ry", "qubits": [0], "params": [0.6]}, {"name": "move", "qubits": [0, 1]}]
+        if k:
+            instrs.insert(4, {"name": "cx", "qubits": [0, 2]})
+        yield ("workflow", {"kind": "reuse_chain", "nq": 3, "qregs": [3], "instrs": instrs,
+                            "obs": [{"l": "IZI", "p": 0}, {"l": "IXI", "p": 0}, {"l": "IYZ", "p": 0}], "auto": k == 0, "N": None,
+                            "seed": rng.randrange(1 << 30), "single": k == 1})
     for _ in range(N):
         kind = rng.choice(["markers", "markers", "markers", "fresh_moves", "reuse_chain"])
         nq = rng.randint(1, 4) if kind == "markers" else rng.randint(2, 4)
